@@ -32,6 +32,9 @@ from typing import Tuple
 # ============================================================
 # Reverse arithmetic operation helpers
 # ============================================================
+def _reverse_mul(y, x):
+	return x * y
+
 def _reverse_sub(y, x):
 	return x - y
 
@@ -1041,7 +1044,7 @@ class Vector():
 		raise SerifTypeError(f"Unsupported operand type: {type(other).__name__}")
 
 	def __rmul__(self, other):
-		return self.__mul__(other)
+		return self._elementwise_operation(other, _reverse_mul, '__rmul__', '*')
 
 	def __rsub__(self, other):
 		return self._elementwise_operation(other, _reverse_sub, '__rsub__', '-')
